@@ -80,3 +80,15 @@ impl App {
         )
     }
 }
+
+#[cfg(yui_verif)]
+impl App { 
+    // Entry point for the in-process simulation harness: real argument parsing and
+    // the real (panic-guarded) dispatch, without logger initialization and timing.
+    pub fn verif_run<I, T>(argv: I) -> Result<String, Box<dyn std::error::Error>>
+    where I: IntoIterator<Item = T>, T: Into<std::ffi::OsString> + Clone { 
+        let args = CliArgs::try_parse_from(argv)?;
+        let app = App { args };
+        app.dispatch()
+    }
+}
